@@ -56,6 +56,14 @@ func runChild() {
 		out = runRounds(*childSd, *childArg, *childN)
 	case "bursts":
 		out = runBursts(*childSd, *childN)
+	case "sched":
+		// arg = pattern/schedules-per-scenario
+		f := strings.SplitN(*childArg, "/", 2)
+		per := 40
+		if len(f) == 2 {
+			fmt.Sscanf(f[1], "%d", &per)
+		}
+		out = runSched(*childSd, f[0], *childN, per)
 	case "producer":
 		out = runProducer(*childSd, *childN, *childArg == "receiver")
 	default:
